@@ -12,16 +12,16 @@ import (
 
 // CEnv is the environment a contract expression is evaluated in.
 type CEnv struct {
-	w     *World
-	pkg   *types.Package
-	vars  map[string]*Val
-	cur   *State // heap reads
-	old   *State // heap reads inside old(...)
-	fr    *Frame // locals by name (loop invariants)
-	lets  []*LetDef
-	reads map[string]bool
+	w       *World
+	pkg     *types.Package
+	vars    map[string]*Val
+	cur     *State // heap reads
+	old     *State // heap reads inside old(...)
+	fr      *Frame // locals by name (loop invariants)
+	lets    []*LetDef
+	reads   map[string]bool
 	readIdx map[string][]string // heap key -> index terms read in the current state
-	inOld bool
+	inOld   bool
 }
 
 func (env *CEnv) noteRead(key string, idx Term) {
@@ -530,7 +530,7 @@ func (w *World) evalIndex(env *CEnv, e *CExpr) *Val {
 		}
 	}
 	if _, el, ok := arrayParts(x.T.Sort); ok {
-		return &Val{T: sel(x.T, i.T), Typ: nil, }
+		return &Val{T: sel(x.T, i.T), Typ: nil}
 		_ = el
 	}
 	unsupported("index expression on %s", x.T.Sort)
